@@ -272,7 +272,7 @@ def item(e, alias=""):
 
 # ---------------------------------------------------------------- random data
 
-WORDS = ["a", "b", "ab", "B", "x", "y", "apple", "Apple", "ant", "bee", "10", "9", "z z", "", "1", "1.0", "007", "-2"]
+WORDS = ["a", "b", "ab", "B", "x", "y", "apple", "Apple", "ant", "bee", "10", "9", "z z", "", "1", "1.0", "007", "-2", "a\tb", "a b", "a\u00a0b", "x\r", " x"]
 
 
 def gen_table(rnd, ncols=None, nrows=None, kinds=None, nullable=False, names=None):
